@@ -297,3 +297,50 @@ def is_dyadic(q, max_den=1 << 30, max_abs=1 << 40):
         d = q.denominator
         return d & (d - 1) == 0 and d <= max_den and abs(q) <= max_abs
     return False
+
+
+def run_tasks(fn, tasks, procs, on_lost=None, timeout_s=None):
+    """Run fn(task) for every task in forked worker processes and yield the results as they arrive.
+    Unlike multiprocessing.Pool, a worker that dies (a solver abort, the OOM killer) does not make the
+    caller wait for ever: every task that has no result by then is reported through on_lost(task, reason)
+    and the generator ends."""
+    import concurrent.futures as cf
+    import multiprocessing as mp
+    tasks = list(tasks)
+    if not tasks:
+        return
+    ex = cf.ProcessPoolExecutor(max_workers=max(1, min(procs, len(tasks))), mp_context=mp.get_context('fork'))
+    futs = {ex.submit(fn, t): t for t in tasks}
+    timeout_s = timeout_s or float(os.environ.get('VERIF_TASKS_TIMEOUT_S', '5400'))
+    done = set()
+    try:
+        it = cf.as_completed(futs, timeout=timeout_s)
+        while True:
+            try:
+                f = next(it)
+            except StopIteration:
+                break
+            except cf.TimeoutError:
+                # a worker that neither returns nor dies (e.g. z3 after an internal assertion failure)
+                for g, t in futs.items():
+                    if g not in done and on_lost is not None:
+                        on_lost(t, 'no result after %d s (worker stuck?)' % timeout_s)
+                for pr in list(getattr(ex, '_processes', {}).values()):
+                    try:
+                        pr.kill()
+                    except Exception:
+                        pass
+                break
+            done.add(f)
+            try:
+                yield f.result()
+            except cf.process.BrokenProcessPool as e:
+                if on_lost is not None:
+                    on_lost(futs[f], 'a worker process ended abnormally (solver abort?): %s' % (str(e)[:120],))
+            except (KeyboardInterrupt, SystemExit):
+                raise
+            except BaseException as e:
+                if on_lost is not None:
+                    on_lost(futs[f], '%s: %s' % (type(e).__name__, str(e)[:200]))
+    finally:
+        ex.shutdown(wait=False, cancel_futures=True)
